@@ -51,6 +51,7 @@ type Run struct {
 	knownHits   map[string]int
 	knownLines  map[string]string // class -> text
 	inconcl     []string
+	violClasses map[string]int
 	exhaustive  *bool
 }
 
@@ -58,7 +59,7 @@ type Run struct {
 func Start(id, level, rule string) *Run {
 	r := &Run{ID: id, Level: level, Rule: rule, start: time.Now(), maxSamples: 6,
 		distinct: map[[8]byte]struct{}{}, counters: map[string]int64{}, extra: map[string]any{},
-		knownHits: map[string]int{}, knownLines: map[string]string{}}
+		knownHits: map[string]int{}, knownLines: map[string]string{}, violClasses: map[string]int{}}
 	tier := os.Getenv("VERIF_TIER")
 	seed := int64(1)
 	if s := os.Getenv("VERIF_SEED"); s != "" {
@@ -223,10 +224,12 @@ func (r *Run) Violation(class string, witness any, format string, args ...any) {
 		return
 	}
 	r.violations++
+	r.violClasses[class]++
 	n := r.violations
-	if n > 8 {
+	if r.violClasses[class] > 3 || r.printed >= 24 {
 		return
 	}
+	r.printed++
 	dir := filepath.Join(r.root, "replays")
 	os.MkdirAll(dir, 0o755)
 	path := filepath.Join(dir, fmt.Sprintf("%s-%d-%d.json", r.ID, r.Seed, n))
@@ -321,6 +324,13 @@ func (r *Run) Finish() {
 	}
 	if len(r.inconcl) > 0 {
 		cov["inconclusive"] = r.inconcl
+	}
+	if len(r.violClasses) > 0 {
+		cov["violation_classes"] = r.violClasses
+		fmt.Printf("[%s] violation classes: %v\n", r.ID, r.violClasses)
+	}
+	if len(r.knownHits) > 0 {
+		fmt.Printf("[%s] known-finding instances: %v\n", r.ID, r.knownHits)
 	}
 	ev := map[string]any{
 		"property_id": r.ID,
